@@ -72,6 +72,11 @@ def _dispatch(kind, which, coef, pv):
     P = h.primitives
     env.COUNTS["reached"] += 1
     if which == 0:  # ideal primitives: documented VLSIR mapping, parameter names kept
+        # a Literal on a Scalar-typed field stays that literal, also when its text reads as a number
+        for text in ("1e3", "47", "0.10", "w/%d" % (abs(coef) + 1), " 5 ", "inf"):
+            _, gl = _inst_params(_two_port(P.R(r=h.Literal(text))))
+            if param_value(gl["r"]) != ("literal", text):
+                return _fail(f"Literal({text!r}) on R.r exported as {param_value(gl['r'])}")
         table = [(P.R, "resistor", dict(r=v), {}), (P.C, "capacitor", dict(c=v), {}), (P.L, "inductor", dict(l=v), {}),
                  (P.Vdc, "vdc", dict(dc=v, ac=None), {}), (P.Isrc, "isource", dict(dc=v), {}),
                  (P.Vpulse, "vpulse", dict(v1=v, v2=2 * v, delay=v, rise=v, fall=None, width=3 * v, period=v),
